@@ -477,7 +477,7 @@ class SimpleGaussianError(GaussianErrorBase):
 
     @property
     def cov_mat_rel_inverse(self):
-        if self._cov_mat is None:
+        if self._cov_mat_rel is None:
             self._calculate_cov_mat_rel()
         return self._cov_mat_rel.I
 
